@@ -47,6 +47,8 @@ def rooted_at(o, param: str) -> bool:
         return True
     if o[0] == "call" and o[1] in ("builtins.tuple", "builtins.list", f"{PAR}.parse_color_to_rgb") and o[2] and not o[3]:
         return rooted_at(o[2][0], param)
+    if o[0] == "call" and o[1] == f"{PAR}.parse_color_to_rgb" and not o[2] and len(o[3]) == 1 and o[3][0][0] == "color":
+        return rooted_at(o[3][0][1], param)      # parse_color_to_rgb(color=background)
     return False
 
 
